@@ -1,6 +1,7 @@
 package main
 
 import (
+	"regexp"
 	"fmt"
 	"go/token"
 	"go/types"
@@ -281,6 +282,12 @@ func (vc *FnVC) call(c ssa.CallInstruction, val *ssa.Call) {
 			if err != nil {
 				// a postcondition that mentions the callee's locals is not visible to callers: assume less
 				vc.warn("call %s: ensures#%d not usable here (%v)", name, i+1, err)
+				// a postcondition over the callee's own locals is simply not visible here; one that names something the callee
+				// no longer has at all (a renamed parameter) means the callee's contract is stale: what this caller can
+				// prove from it is undecided, not violated
+				if m := unknownIdentRe.FindStringSubmatch(err.Error()); m != nil && callee != nil && !funcHasName(callee, m[1]) {
+					vc.staleCallees = append(vc.staleCallees, fmt.Sprintf("%s (ensures#%d names %q, which %s no longer has)", name, i+1, m[1], name))
+				}
 				continue
 			}
 			vc.assume(vc.b(), tv.t)
@@ -772,6 +779,51 @@ func (vc *FnVC) blockResolver(b *ssa.BasicBlock, m *Mem) func(string) (TV, bool)
 		}
 		return TV{}, false
 	}
+}
+
+var unknownIdentRe = regexp.MustCompile(`unknown identifier "([^"]+)"`)
+
+// funcHasName: does fn have a parameter, result, captured variable or local of that name?
+func funcHasName(fn *ssa.Function, name string) bool {
+	for _, p := range fn.Params {
+		if p.Name() == name {
+			return true
+		}
+	}
+	for _, p := range fn.FreeVars {
+		if p.Name() == name {
+			return true
+		}
+	}
+	res := fn.Signature.Results()
+	for i := 0; i < res.Len(); i++ {
+		if res.At(i).Name() == name {
+			return true
+		}
+	}
+	switch name {
+	case "result", "err", "result0", "result1", "result2":
+		return true
+	}
+	for _, b := range fn.Blocks {
+		for _, in := range b.Instrs {
+			switch x := in.(type) {
+			case *ssa.DebugRef:
+				if o := x.Object(); o != nil && o.Name() == name {
+					return true
+				}
+			case *ssa.Phi:
+				if x.Comment == name {
+					return true
+				}
+			case *ssa.Alloc:
+				if x.Comment == name {
+					return true
+				}
+			}
+		}
+	}
+	return false
 }
 
 // cellVar: a variable that lives in a cell (captured by a closure, or address-taken) denotes the cell's current content
